@@ -76,6 +76,7 @@ GridWavelet::GridWavelet(AccelerationContext const *acc, int cnum_dimensions, in
     if (num_outputs == 0){
         points = std::move(needed);
         needed = MultiIndexSet();
+        buildInterpolationMatrix(); // the weights are the only use of a grid with no outputs, keep the matrix cached
     }else{
         values.resize(num_outputs, needed.getNumIndexes());
     }
@@ -130,8 +131,9 @@ void GridWavelet::getQuadratureWeights(double weights[]) const{
     for(int i=0; i<num_points; i++){
         weights[i] = evalIntegral(work.getIndex(i));
     }
-    if (inter_matrix.getNumRows() != num_points) buildInterpolationMatrix();
-    inter_matrix.invertTransposed(acceleration, weights);
+    // const methods never modify the cached matrix (thread safety), if the cache is missing use a temporary matrix
+    if (inter_matrix.getNumRows() == num_points) inter_matrix.invertTransposed(acceleration, weights);
+    else makeInterpolationMatrix().invertTransposed(acceleration, weights);
 }
 void GridWavelet::getInterpolationWeights(const double x[], double weights[]) const{
     const MultiIndexSet &work = (points.empty()) ? needed : points;
@@ -140,8 +142,8 @@ void GridWavelet::getInterpolationWeights(const double x[], double weights[]) co
     for(int i=0; i<num_points; i++){
         weights[i] = evalBasis(work.getIndex(i), x);
     }
-    if (inter_matrix.getNumRows() != num_points) buildInterpolationMatrix();
-    inter_matrix.invertTransposed(acceleration, weights);
+    if (inter_matrix.getNumRows() == num_points) inter_matrix.invertTransposed(acceleration, weights);
+    else makeInterpolationMatrix().invertTransposed(acceleration, weights);
 }
 void GridWavelet::getDifferentiationWeights(const double x[], double weights[]) const {
     const MultiIndexSet &work = (points.empty()) ? needed : points;
@@ -150,13 +152,15 @@ void GridWavelet::getDifferentiationWeights(const double x[], double weights[]) 
     for (int i=0; i<num_points; i++) {
         evalDiffBasis(work.getIndex(i), x, &(weights[i * num_dimensions]));
     }
-    if (inter_matrix.getNumRows() != num_points) buildInterpolationMatrix();
+    TasSparse::WaveletBasisMatrix local_matrix; // used only if the cached matrix is missing, const methods never modify the cache
+    if (inter_matrix.getNumRows() != num_points) local_matrix = makeInterpolationMatrix();
+    TasSparse::WaveletBasisMatrix const &matrix = (inter_matrix.getNumRows() == num_points) ? inter_matrix : local_matrix;
     // Solve the linear wavelet system for each direction/partial derivative and re-index.
     std::vector<double> local_weights(num_points);
     for (int d=0; d<num_dimensions; d++) {
         for (int i=0; i<num_points; i++)
             local_weights[i] = weights[i * num_dimensions + d];
-        inter_matrix.invertTransposed(acceleration, local_weights.data());
+        matrix.invertTransposed(acceleration, local_weights.data());
         for (int i=0; i<num_points; i++)
             weights[i * num_dimensions + d] = local_weights[i];
     }
@@ -386,7 +390,8 @@ void GridWavelet::evalDiffBasis(const int p[], const double x[], double jacobian
     }
 }
 
-void GridWavelet::buildInterpolationMatrix() const{
+void GridWavelet::buildInterpolationMatrix(){ inter_matrix = makeInterpolationMatrix(); }
+TasSparse::WaveletBasisMatrix GridWavelet::makeInterpolationMatrix() const{
     // updated code, using better parallelism
     // Wavelets don't have a nice rule of support to use monkeys and graphs (or I cannot find the support rule)
     MultiIndexSet const &work = (points.empty()) ? needed : points;
@@ -401,8 +406,7 @@ void GridWavelet::buildInterpolationMatrix() const{
         GpuVector<double> gpu_pnts(acceleration, pnts);
         GpuVector<double> gpu_basis(acceleration, num_points, num_points);
         evaluateHierarchicalFunctionsGPU(gpu_pnts.data(), num_points, gpu_basis.data());
-        inter_matrix = TasSparse::WaveletBasisMatrix(acceleration, num_points, std::move(gpu_basis));
-        return;
+        return TasSparse::WaveletBasisMatrix(acceleration, num_points, std::move(gpu_basis));
     }
 
     int num_chunk = 32;
@@ -439,7 +443,7 @@ void GridWavelet::buildInterpolationMatrix() const{
         }
     }
 
-    inter_matrix = TasSparse::WaveletBasisMatrix(acceleration, pntr, indx, vals);
+    return TasSparse::WaveletBasisMatrix(acceleration, pntr, indx, vals);
 }
 
 void GridWavelet::recomputeCoefficients(){
